@@ -195,7 +195,97 @@ def typestate(chk, repo):
     chk.floor("R21.1", "sends in SyncGroupBase.run", n, 3)
 
 
+def activation_exec(chk, repo):
+    """SterilePacket.activate by abstract execution on recording stand-ins
+    for the program's packet arrays, its error counter and its exit: the
+    sequence of DSL operations for packets with 0, 1 and 3 recorded writers
+    is: leave with TX while wkc_errors == 0; then per writer, in order:
+    enable (its command at its command byte), compare (working counter !=
+    expected: wkc_errors += 1), clear (working counter = 0).  Returns False
+    when the method cannot be executed."""
+    sym = C + "SterilePacket.activate"
+    f = repo.func(sym)
+    spc = repo.cls(C + "SterilePacket")
+    pk = repo.cls("ebpfcat.ethercat.Packet")
+    ev0 = Evaluator(repo, spc.module, spc)
+    try:
+        EH = ev0.class_attr(pk, "ETHERNET_HEADER")
+    except Unknown:
+        return False
+    cmds = ev0.enum_members(repo.cls("ebpfcat.ethercat.ECCmd"))
+    bad = []
+    for writers in ([], [(16, 31, "FPWR", 1)],
+                    [(16, 31, "FPWR", 1), (43, 60, "LWR", 3),
+                     (60, 73, "FPWR", 2)]):
+        log = []
+
+        def ctx(label, _l=log):
+            return Obj(None, {
+                "__enter__": ("hook", lambda: _l.append(("if", label))),
+                "__exit__": ("hook", lambda *a: _l.append(("end", label)))})
+        W = Obj(None, {})
+        W.fields["__eq__"] = ("hook", lambda v: ctx(("wkc_errors ==", v)))
+        W.fields["__iadd__"] = ("hook", lambda v, _l=log, _w=W: (
+            _l.append(("wkc_errors +=", v)), _w)[1])
+        group = Obj(None, {"wkc_errors": W, "exit": ("hook", lambda c=None,
+                                                      _l=log: _l.append(
+                                                          ("exit", c)))})
+        pB = Obj(None, {"__setitem__": ("hook", lambda i, v, _l=log:
+                                        _l.append(("pB =", i, v)))})
+
+        def ph_get(i):
+            return Obj(None, {"__ne__": ("hook", lambda v, _i=i: ctx(
+                ("pH !=", _i, v)))})
+        pH = Obj(None, {"__getitem__": ("hook", ph_get),
+                        "__setitem__": ("hook", lambda i, v, _l=log:
+                                        _l.append(("pH =", i, v)))})
+        prog = Obj(None, {"ebpf": group, "pB": pB, "pH": pH})
+        me = Obj(spc, {"on_the_fly": [(a, b, cmds[c]) for a, b, c, _
+                                      in writers],
+                       "counters": {b - 2: n for _, b, _, n in writers}})
+        try:
+            Evaluator(repo, f._module, spc).call_function(f, [me, prog],
+                                                          cls=spc)
+        except (Unknown, Raised):
+            return False
+        tx = [m for n_, m in ev0.enum_members(repo.cls(
+            "ebpfcat.xdp.XDPExitCode")).items() if n_ == "TX"][0]
+        want = [("if", ("wkc_errors ==", 0)), ("exit", tx),
+                ("end", ("wkc_errors ==", 0))]
+        for a, b, c, n in writers:
+            want += [("pB =", a + EH, cmds[c].value),
+                     ("if", ("pH !=", b + EH - 2, n)),
+                     ("wkc_errors +=", 1),
+                     ("end", ("pH !=", b + EH - 2, n)),
+                     ("pH =", b + EH - 2, 0)]
+        if log != want:
+            k = next((i for i, (x, y) in enumerate(zip(log, want))
+                      if x != y), min(len(log), len(want)))
+            bad.append(f"{len(writers)} writers: operation {k} is "
+                       f"{log[k] if k < len(log) else 'missing'}, expected "
+                       f"{want[k] if k < len(want) else 'nothing more'}")
+    chk.ob("R21.2", sym, "activation: TX while no counter ever matched, "
+           "then per writer enable / compare-and-count / clear, in that "
+           "order, at the recorded positions (3 packets by abstract "
+           "execution on recording stand-ins)", not bad, f,
+           "; ".join(bad[:2]) or "operations and their order as specified")
+    return True
+
+
 def activation(chk, repo):
+    done = activation_exec(chk, repo)
+    try:
+        activation_events(chk, repo)
+    except AnalysisError as e:
+        if not done:
+            raise
+        chk.ob("R21.2", C + "SterilePacket.activate", "the activation is not "
+               "written as the one loop the event rules know; decided by "
+               "the recorded operations", True,
+               repo.func(C + "SterilePacket.activate"), str(e))
+
+
+def activation_events(chk, repo):
     sym = C + "SterilePacket.activate"
     f = repo.func(sym)
     chk.analysed(sym)
